@@ -31,7 +31,7 @@ META: Dict[str, Any] = {
     "level": "exploration",
     "pools": [{"backend": "c"}, {"backend": "py"}, {"backend": "c", "optimize": 1}],
     "tiers": {
-        "quick": {"runs": 2600, "chunk": 12, "wall": 80, "chunk_wall": 400},
+        "quick": {"runs": 2600, "chunk": 12, "wall": 240, "chunk_wall": 400},
         "thorough": {"runs": 120000, "chunk": 30, "wall": 1800, "chunk_wall": 900},
     },
     "selftest_runs": 4,
@@ -188,7 +188,7 @@ def worker_init() -> None:
             if key not in seen:
                 seen.add(key)
                 pairs.append((name, key, "plain"))
-                if t["kind"] == "populate":
+                if t["kind"] in ("populate", "retarget"):
                     continue
                 if t["kind"] == "leaf" and t["field"] in FREE_TEXT_FIELDS and "str" in t["type"]:
                     pairs.append((name, key, "meta"))
@@ -360,7 +360,11 @@ def walk(v: Any, path: List[Any], visit, seen: set, owner=None, fld=None) -> Non
             return
         seen.add(id(v))
         for f in public_fields(v):
-            walk(getattr(v, f.name), path + [f.name], visit, seen, v, f)
+            val = getattr(v, f.name)
+            if type(val).__name__ == "OdxLinkRef":
+                visit(path + [f.name], val, v, f)
+                continue
+            walk(val, path + [f.name], visit, seen, v, f)
         return
     visit(path, v, owner, fld)
 
@@ -384,6 +388,22 @@ def populate_allowed(cls: str, field: str) -> bool:
         p = os.path.join(os.path.dirname(os.path.abspath(__file__)), "c11_populate_ok.json")
         _POPULATE_OK = set(json.load(open(p))) if os.path.exists(p) else set()
     return f"{cls}.{field}" in _POPULATE_OK
+
+
+_RETARGET_OK: Optional[set] = None
+
+
+def retarget_allowed(cls: str, field: str) -> bool:
+    """'retarget' perturbations (a *-REF pointed at the object that another element of the same class
+    references) are restricted to the (class, field) pairs validated on the pinned tree
+    (vsim/props/c11_retarget_ok.json): re-targeting some references is not meaningful ODX."""
+    global _RETARGET_OK
+    if os.environ.get("VERIF_C11_ALL_RETARGET"):
+        return True
+    if _RETARGET_OK is None:
+        p = os.path.join(os.path.dirname(os.path.abspath(__file__)), "c11_retarget_ok.json")
+        _RETARGET_OK = set(json.load(open(p))) if os.path.exists(p) else set()
+    return f"{cls}.{field}" in _RETARGET_OK
 
 
 def context_key(owner: Any) -> str:
@@ -416,6 +436,13 @@ def enumerate_targets(db) -> List[Dict[str, Any]]:
             return
         last_dc[0] = owner
         name = fld.name
+        if name.endswith("_ref") and type(v).__name__ == "OdxLinkRef" and name not in SKIP_FIELDS and \
+                retarget_allowed(type(owner).__name__, name):
+            # a reference that the client may point at another object of the database
+            out.append({"path": path, "cls": type(owner).__name__, "field": name, "type": "OdxLinkRef",
+                        "kind": "retarget", "ctx": context_key(owner),
+                        "ref": [v.ref_id, [[d.doc_name, str(d.doc_type)] for d in v.ref_docs]]})
+            return
         if name in SKIP_FIELDS or name.endswith(("_ref", "_refs", "_snref", "_snrefs", "_snpathref", "_snpathrefs")):
             return
         if type(owner).__name__ in ("OdxLinkId", "OdxLinkRef", "OdxDocFragment"):
@@ -613,6 +640,8 @@ def new_value(target: Dict[str, Any], old: Any, vclass: str, n: int) -> Tuple[bo
         return True, "append-copy"
     if target["kind"] == "populate":
         return (True, "populate") if vclass == "plain" else (False, None)
+    if target["kind"] == "retarget":
+        return (True, ["ref", target.get("donor")]) if vclass == "plain" and target.get("donor") else (False, None)
     if vclass == "empty":
         # the empty string: unusual but legal for free-text content
         if target["kind"] != "leaf" or not (isinstance(old, str) or (old is None and "Optional[str]" in t)):
@@ -678,6 +707,12 @@ def apply_perturbation(db, pert: Dict[str, Any]) -> Tuple[Any, Any]:
         else:
             old.append(obj)
         return None, type(obj).__name__
+    if isinstance(val, (list, tuple)) and len(val) == 2 and val[0] == "ref":
+        d_owner, d_last = get_path(db, val[1])
+        donor = step_into(d_owner, d_last)
+        new = type(donor)(ref_id=donor.ref_id, ref_docs=list(donor.ref_docs))
+        setattr(owner, last, new)
+        return old.ref_id, new.ref_id
     if val == "append-copy":
         item = copy.deepcopy(old[-1])
         if hasattr(item, "short_name") and isinstance(item.short_name, str):
@@ -826,6 +861,22 @@ def gen(rs: int, index: int, tier: str) -> Dict[str, Any]:
         db = None
         pert = {"path": tgt["path"], "cls": tgt["cls"], "field": tgt["field"], "type": tgt["type"],
                 "kind": tgt["kind"], "vclass": vclass, "n": r.randint(0, 3), "alts": alts}
+        if tgt["kind"] == "retarget":
+            # the donor: an element of the same class in the same context whose reference points elsewhere
+            rd = S.rng("donor")
+            donors = [t for t in STATE["targets"][base] if t["kind"] == "retarget" and
+                      (t["cls"], t["field"]) == (tgt["cls"], tgt["field"]) and t["ref"] != tgt["ref"]]
+            # same document (layer / subset) so that the reference means the same thing at its new place
+            donors = [t for t in donors if t["path"][:4] == tgt["path"][:4]]
+            pool = [t for t in donors if t.get("ctx") == tgt.get("ctx")] or donors
+            pert["alts"] = []
+            if pool:
+                pert["donor"] = rd.choice(pool)["path"]
+            else:
+                pert = None
+    # the client edits the loaded database and writes it without calling refresh() first (the shipped
+    # example mksomersaultmodifiedpdx.py: "For just writing to disk this is not necessary")
+    norefresh = pert is not None and (pert["kind"] == "retarget" or S.rng("norefresh").random() < 0.3)
     jump = r.choice(JUMPS)
     e1, e2 = r.choice(ENTRIES), r.choice(ENTRIES)
     # history inside the run: in some runs another database is written first by the same process
@@ -838,7 +889,7 @@ def gen(rs: int, index: int, tier: str) -> Dict[str, Any]:
     env = {"tz": [renv.choice(["UTC", "Europe/Berlin", "America/Los_Angeles", "Asia/Kolkata"]),
                   renv.choice(["UTC", "Europe/Berlin", "Pacific/Kiritimati", "Asia/Kolkata"])],
            "relative_paths": renv.random() < 0.3}
-    return {"base": base, "prelude": prelude, "pert": pert, "env": env, "entries": [e1, e2], "orders": [r.randint(0, 10**6), r.randint(0, 10**6)],
+    return {"base": base, "prelude": prelude, "pert": pert, "env": env, "norefresh": norefresh, "entries": [e1, e2], "orders": [r.randint(0, 10**6), r.randint(0, 10**6)],
             "index_pos": [r.choice(["first", "last", "middle", "keep"]), r.choice(["first", "last", "middle", "keep"])],
             "clock": [1_700_000_000.0 + r.randint(0, 10**7), jump[0], jump[1]]}
 
@@ -1059,7 +1110,13 @@ def execute(trace: Dict[str, Any]) -> Dict[str, Any]:
                     paths = [pert["path"]] + [a for a in pert.get("alts", [])]
                     for pi, pth in enumerate(paths):
                         if pi > 0:
-                            db0 = load_base(trace["base"])
+                            try:
+                                db0 = load_base(trace["base"])
+                            except Exception as e:  # noqa: BLE001 - the base loaded a moment ago: it must load again
+                                outcome = "base-failed"
+                                violations.append({"oracle": "C11.write", "sig": {"cls": "-", "field": "-", "vclass": "base", **exc_sig(e)},
+                                                   "detail": {"base": trace["base"], "msg": str(e)[:300], "stage": "repeated load of the base"}})
+                                break
                             owner, last = get_path(db0, pth)
                             cur = step_into(owner, last)
                             ok, val = new_value({**pert, "path": pth}, cur, vclass, pert.get("n", 0))
@@ -1087,8 +1144,21 @@ def execute(trace: Dict[str, Any]) -> Dict[str, Any]:
                 clock.now = float(trace["clock"][0])
                 wd = "" if env.get("relative_paths") else workdir
                 p1 = os.path.join(wd, "p1.pdx")
+                dbw = db0
+                if pert and trace.get("norefresh"):
+                    # the written object: a second instance of the base with the same edit and NO refresh();
+                    # db0 (edited and refreshed) stays the reference the reloaded database is compared with
+                    try:
+                        dbw = load_base(trace["base"])
+                        apply_perturbation(dbw, pert)
+                        faults["written_without_refresh"] = 1
+                    except Exception as e:  # noqa: BLE001 - the base loaded a moment ago: it must load again
+                        outcome = "base-failed"
+                        violations.append({"oracle": "C11.write", "sig": {"cls": "-", "field": "-", "vclass": "base", **exc_sig(e)},
+                                           "detail": {"base": trace["base"], "msg": str(e)[:300], "stage": "second load of the base"}})
                 try:
-                    odxtools.write_pdx_file(p1, db0)
+                    if outcome == "ok":
+                        odxtools.write_pdx_file(p1, dbw)
                 except Exception as e:  # noqa: BLE001
                     outcome = "write-failed"
                     sig = exc_sig(e)
@@ -1120,6 +1190,9 @@ def execute(trace: Dict[str, Any]) -> Dict[str, Any]:
                     v6 = check_aux(db1, p1r, "first reload", trace["entries"][0])
                     if v6:
                         violations.append(v6)
+                    v7 = check_no_sharing(dbw, db1, "written database vs first reload")
+                    if v7:
+                        violations.append(v7)
                 if outcome == "ok":
                     d = compare_dbs(db0, db1)
                     if d:
@@ -1195,6 +1268,9 @@ def execute(trace: Dict[str, Any]) -> Dict[str, Any]:
                         v6 = check_aux(db2, p2r, "second reload", trace["entries"][1])
                         if v6:
                             violations.append(v6)
+                        v7 = check_no_sharing(db1, db2, "first vs second reload")
+                        if v7:
+                            violations.append(v7)
                         d = compare_dbs(db1, db2)
                         if d:
                             path, what, va, vb = d
@@ -1251,6 +1327,48 @@ def execute(trace: Dict[str, Any]) -> Dict[str, Any]:
         "sample": {"base": trace["base"], "pert": {k: pert[k] for k in ("path", "cls", "field", "vclass", "value")} if pert else None,
                    "entries": trace["entries"], "index_pos": trace["index_pos"], "clock": trace["clock"], "outcome": outcome},
     }
+
+
+def element_ids(db) -> Dict[int, str]:
+    """id() -> class name of every named element reachable from the database roots."""
+    out: Dict[int, str] = {}
+
+    def rec(v: Any, depth: int) -> None:
+        if is_leaf(v) or depth > 60:
+            return
+        if isinstance(v, (list, tuple)):
+            for x in v:
+                rec(x, depth + 1)
+            return
+        if isinstance(v, dict):
+            for x in v.values():
+                rec(x, depth + 1)
+            return
+        if dataclasses.is_dataclass(v) and not isinstance(v, type):
+            if id(v) in out or id(v) in seen:
+                return
+            seen.add(id(v))
+            if isinstance(getattr(v, "short_name", None), str):
+                out[id(v)] = type(v).__name__
+            for f in public_fields(v):
+                rec(getattr(v, f.name), depth + 1)
+
+    seen: set = set()
+    for _, r in roots(db):
+        rec(r, 0)
+    return out
+
+
+def check_no_sharing(a, b, stage: str) -> Optional[Dict[str, Any]]:
+    """Two Database objects obtained by separate load calls are separate object graphs: editing one must
+    not edit the other, and what is loaded reflects the file, not what the process loaded before."""
+    ia, ib = element_ids(a), element_ids(b)
+    common = set(ia) & set(ib)
+    if common:
+        classes = sorted({ia[i] for i in common})
+        return {"oracle": "C11.O7-loaded-databases-share-no-elements", "sig": {"cls": classes[0]},
+                "detail": {"stage": stage, "shared_elements": len(common), "classes": classes[:8]}}
+    return None
 
 
 def path_str(path: List[Any]) -> str:
